@@ -1,0 +1,197 @@
+//go:build verif
+
+// Contracts for package bexpr, checked by /verif (bxv). This file holds
+// nothing but //@ comments: with the build tag off it does not exist, with
+// the tag on it adds no code.
+
+package bexpr
+
+//@ func CoerceInt64(value) (res, err)
+//@   ensures[C02,C01] ok: (err == nil) == okInt(value, 0, 64)
+//@   ensures[C02,C01] val: err == nil ==> is[int64](res) && unbox[int64](res) == specParseInt(value, 0, 64)
+//@   ensures syn: err != nil ==> isSyntax(err) == synErrInt(value, 0, 64)
+//@   ensures[C09] boxed: is[int64](res)
+//@   assigns nothing
+
+//@ func CoerceUint64(value) (res, err)
+//@   ensures[C02,C01] ok: (err == nil) == okUint(value, 0, 64)
+//@   ensures[C02,C01] val: err == nil ==> is[uint64](res) && unbox[uint64](res) == specParseUint(value, 0, 64)
+//@   ensures syn: err != nil ==> isSyntax(err) == synErrUint(value, 0, 64)
+//@   ensures[C09] boxed: is[uint64](res)
+//@   assigns nothing
+
+//@ func CoerceBool(value) (res, err)
+//@   ensures[C02,C01] ok: (err == nil) == okBool(value)
+//@   ensures[C02,C01] val: err == nil ==> is[bool](res) && unbox[bool](res) == specParseBool(value)
+//@   ensures syn: err != nil ==> isSyntax(err) == synErrBool(value)
+//@   ensures[C09] boxed: is[bool](res)
+//@   assigns nothing
+
+//@ func CoerceFloat32(value) (res, err)
+//@   ensures[C02,C01] ok: (err == nil) == okFloat(value, 32)
+//@   ensures[C02,C01] val: err == nil ==> is[float32](res) && unbox[float32](res) == to32(specParseFloat(value, 32))
+//@   ensures syn: err != nil ==> isSyntax(err) == synErrFloat(value, 32)
+//@   ensures[C09] boxed: is[float32](res)
+//@   assigns nothing
+
+//@ func CoerceFloat64(value) (res, err)
+//@   ensures[C02,C01] ok: (err == nil) == okFloat(value, 64)
+//@   ensures[C02,C01] val: err == nil ==> is[float64](res) && unbox[float64](res) == specParseFloat(value, 64)
+//@   ensures syn: err != nil ==> isSyntax(err) == synErrFloat(value, 64)
+//@   ensures[C09] boxed: is[float64](res)
+//@   assigns nothing
+
+//@ func doEqualBool(first, second) (res)
+//@   requires is[bool](first) && kind(second) == K.Bool
+//@   ensures[C02,C01] res == (unbox[bool](first) == boolOf(second))
+//@   assigns nothing
+
+//@ func doEqualInt64(first, second) (res)
+//@   requires is[int64](first) && isIntK(kind(second))
+//@   ensures[C02,C01] res == (unbox[int64](first) == intOf(second))
+//@   assigns nothing
+
+//@ func doEqualUint64(first, second) (res)
+//@   requires is[uint64](first) && isUintK(kind(second))
+//@   ensures[C02,C01] res == (unbox[uint64](first) == uintOf(second))
+//@   assigns nothing
+
+//@ func doEqualFloat32(first, second) (res)
+//@   requires is[float32](first) && kind(second) == K.Float32
+//@   ensures[C02,C01] res == fpeq32(unbox[float32](first), to32(f64Of(second)))
+//@   assigns nothing
+
+//@ func doEqualFloat64(first, second) (res)
+//@   requires is[float64](first) && kind(second) == K.Float64
+//@   ensures[C02,C01] res == fpeq64(unbox[float64](first), f64Of(second))
+//@   assigns nothing
+
+//@ func doEqualString(first, second) (res)
+//@   requires is[string](first) && kind(second) == K.String
+//@   ensures[C02,C01] res == (unbox[string](first) == strOf(second))
+//@   assigns nothing
+
+//@ func primitiveEqualityFn(kind) (fn)
+//@   ensures[C02,C01] fn == eqFnOf(kind)
+//@   assigns nothing
+
+//@ func derefType(rtype) (res)
+//@   requires rtype != nil
+//@   ensures[C09,C01] res == tbase(rtype) && res != nil && tkind(res) != K.Ptr
+//@   assigns nothing
+//@   loop 1:
+//@     invariant rtype != nil && tbase(rtype) == tbase(old(rtype))
+//@     decreases ptrdepth(rtype)
+
+//@ func doMatchIsEmpty(matcher, value) (res, err)
+//@   ensures[C09] err_false: err != nil ==> !res
+//@   assigns nothing
+
+//@ func getMatchExprValue(expression, rvalue) (res, err)
+//@   requires expression != nil
+//@   ensures[C09] novalue: expression.Value == nil ==> res == nil && err == nil
+//@   ensures[C02,C01] ok: expression.Value != nil ==> (err == nil) == litOK(rvalue, expression.Value.Raw)
+//@   ensures[C02,C01] syn: expression.Value != nil && err != nil ==> isSyntax(err) == litSynErr(rvalue, expression.Value.Raw)
+//@   ensures[C02,C01,C09] bool: expression.Value != nil && err == nil && rvalue == K.Bool ==> is[bool](res) && unbox[bool](res) == specParseBool(expression.Value.Raw)
+//@   ensures[C02,C01,C09] int: expression.Value != nil && err == nil && isIntK(rvalue) ==> is[int64](res) && unbox[int64](res) == specParseInt(expression.Value.Raw, 0, 64)
+//@   ensures[C02,C01,C09] uint: expression.Value != nil && err == nil && isUintK(rvalue) ==> is[uint64](res) && unbox[uint64](res) == specParseUint(expression.Value.Raw, 0, 64)
+//@   ensures[C02,C01,C09] f32: expression.Value != nil && err == nil && rvalue == K.Float32 ==> is[float32](res) && unbox[float32](res) == to32(specParseFloat(expression.Value.Raw, 32))
+//@   ensures[C02,C01,C09] f64: expression.Value != nil && err == nil && rvalue == K.Float64 ==> is[float64](res) && unbox[float64](res) == specParseFloat(expression.Value.Raw, 64)
+//@   ensures[C02,C01,C09] str: expression.Value != nil && err == nil && rvalue != K.Bool && !isIntK(rvalue) && !isUintK(rvalue) && rvalue != K.Float32 && rvalue != K.Float64 ==> is[string](res) && unbox[string](res) == expression.Value.Raw
+//@   assigns nothing
+
+//@ func doMatchEqual(expression, value) (res, err)
+//@   requires expression != nil && expression.Value != nil
+//@   ensures[C09] err_false: err != nil ==> !res
+//@   assigns nothing
+
+//@ func doMatchIn(expression, value) (res, err)
+//@   requires expression != nil && expression.Value != nil
+//@   ensures[C09] err_false: err != nil ==> !res
+//@   assigns nothing
+//@   loop 1:
+//@     invariant 0 <= i
+//@   loop 2:
+//@     invariant 0 <= i
+
+//@ func doMatchMatches(expression, value) (res, err)
+//@   requires expression != nil && expression.Value != nil
+//@   ensures[C09] err_false: err != nil ==> !res
+//@   assigns grammar.MatchValue.Converted
+
+//@ func evaluateNotPresent(ptr, datum) (res)
+//@   assigns nothing
+
+//@ func getOpts(opt) (res)
+//@   requires wfOpts(opt)
+//@   assigns nothing
+//@   loop 1:
+//@     invariant -1 <= rangeindex && rangeindex < len(opt)
+
+//@ func getDefaultOptions() (res)
+//@   assigns nothing
+
+//@ func WithTagName(tagName) (res)
+//@   ensures[C18] res == fn.bexpr.WithTagName$1(tagName)
+//@   assigns nothing
+//@ func WithTagName$1(o) ()
+//@   requires o != nil
+//@   assigns bexpr.options.withTagName@o
+
+//@ func WithHookFn(fn) (res)
+//@   ensures[C18] res == fn.bexpr.WithHookFn$1(fn)
+//@   assigns nothing
+//@ func WithHookFn$1(o) ()
+//@   requires o != nil
+//@   assigns bexpr.options.withHookFn@o
+
+//@ func WithMaxExpressions(maxExprCnt) (res)
+//@   ensures[C18] res == fn.bexpr.WithMaxExpressions$1(maxExprCnt)
+//@   assigns nothing
+//@ func WithMaxExpressions$1(o) ()
+//@   requires o != nil
+//@   assigns bexpr.options.withMaxExpressions@o
+
+//@ func WithUnknownValue(val) (res)
+//@   ensures[C18] is_ctor: knownOpt(res) && res != nil
+//@   assigns nothing
+//@ func WithUnknownValue$1(o) ()
+//@   requires o != nil
+//@   assigns bexpr.options.withUnknown@o
+
+//@ func WithLocalVariable(name, path, value) (res)
+//@   ensures[C06] res == fn.bexpr.WithLocalVariable$1(name, path, value)
+//@   assigns nothing
+//@ func WithLocalVariable$1(o) ()
+//@   requires o != nil
+//@   assigns bexpr.options.withLocalVariables@o
+
+//@ func getValue(datum, path, opt) (val, present, err)
+//@   requires wfOpts(opt)
+//@   assigns nothing
+//@   loop 1:
+//@     invariant i < len(opts.withLocalVariables) && -1 <= i && len(path) > 0
+
+//@ func evaluateMatchExpression(expression, datum, opt) (res, err)
+//@   requires wfMatchP(expression) && wfOpts(opt)
+//@   ensures[C09] err_false: err != nil ==> !res
+//@   assigns grammar.MatchValue.Converted
+
+//@ func evaluateCollectionExpression(expression, datum, opt) (res, err)
+//@   requires wf(box[*grammar.CollectionExpression](expression)) && wfOpts(opt)
+//@   ensures[C09] err_false: err != nil ==> !res
+//@   decreases 2 * astSize(box[*grammar.CollectionExpression](expression))
+//@   assigns grammar.MatchValue.Converted
+//@   loop 1:
+//@     invariant 0 <= i
+
+//@ func evaluate(ast, datum, opt) (res, err)
+//@   requires wf(ast) && wfOpts(opt)
+//@   ensures[C09] err_false: err != nil ==> !res
+//@   decreases 2 * astSize(ast) + 1
+//@   assigns grammar.MatchValue.Converted
+
+//@ func Evaluator.Evaluate(eval, datum) (res, err)
+//@   requires eval != nil && wf(eval.ast)
+//@   ensures[C09] err_false: err != nil ==> !res
+//@   assigns grammar.MatchValue.Converted
